@@ -227,6 +227,9 @@ var c20Docs = map[string]int{"ratelimit": 429, "connlimit": 429, "breaker": 503,
 func c20Stacks(c *Ctx) {
 	client := &http.Client{Transport: &http.Transport{MaxIdleConnsPerHost: 4}, Timeout: 90 * time.Second,
 		CheckRedirect: func(*http.Request, []*http.Request) error { return http.ErrUseLastResponse }}
+	srv, bare := newSwapServer(), newSwapServer()
+	defer srv.Close()
+	defer bare.Close()
 	c.Cases("stack", c.N(1500, 40000), func(i int, r *rand.Rand) {
 		depth := 1 + r.IntN(8)
 		specs := make([]c20MW, depth)
@@ -310,8 +313,7 @@ func c20Stacks(c *Ctx) {
 			c.Violation("build", "building the stack failed: "+err.Error(), desc)
 			return
 		}
-		srv := newTestServer(h)
-		defer srv.Close()
+		srv.set(h)
 		do := func(id, scriptName string, body []byte, onFirst func()) (*http.Response, []byte, error) {
 			var rd io.Reader
 			method := "GET"
@@ -459,8 +461,7 @@ func c20Stacks(c *Ctx) {
 		}
 		// transparent: compare with the bare handler
 		bareInner := &c20Inner{invoked: map[string]int{}, script: script, gotFirst: make(chan struct{}, 1), hold: make(chan struct{}), entered: make(chan struct{}, 1)}
-		bare := newTestServer(bareInner)
-		defer bare.Close()
+		bare.set(bareInner)
 		var onFirst func()
 		if script.Kind == "flush" {
 			if hasBuffer {
